@@ -13,7 +13,7 @@ import os
 
 from ..common import leanio, rtlgen
 from ..common.leanio import InfraError
-from . import c01_lib
+from . import c01_lib, c01_mamba
 
 PID = 'C01'
 DRIVERS = ['rtl']
@@ -24,7 +24,7 @@ THEOREMS = ['PV.C01.' + t for t in [
 TRUSTED = [
   'Model/Rtl.lean: signals as bit vectors, blocks as assignment lists, nets as blocks, if/else presented as mux by the harness (rtlgen.py)',
   'driver glue ofTab/commit (table <-> bit-level state) in Driver/Rtl.lean is outside the theorems',
-  'the five scheduling passes are not modelled as algorithms: their schedules are checked (topoB) and executed',
+  'scheduling passes: SimpleSchedulePass (Kahn, Props/C02), Mamba2020Pass and HeuristicTopoPass (Model/Mamba.lean, Props/C01m) are modelled as algorithms; DynamicSchedulePass / UnrollSim schedules are checked (topoB) and executed',
   'library stream: harness/common/pymtl2rtl.py (symbolic execution of update-block ASTs with PythonBits semantics into Model/Rtl.lean '
   'assignments; large shared sub-expressions bound to virtual wires with their own virtual comb blocks) is trusted glue; it is cross-checked '
   'on every run by an independent Python evaluation of the translated dataflow (c01_lib.LibRefSim) against the real simulation; library designs '
@@ -45,6 +45,14 @@ RULE = ('random single-writer acyclic designs (2-10 comb blocks incl. nets, 0-3 
 
 FLOWS = ['default', 'simple', 'heutopo', 'mamba', 'unroll']
 
+# ---- begin: scheduler model (Model/Mamba.lean, Props/C01m.lean, harness/checks/c01_mamba.py)
+DRIVERS = DRIVERS + c01_mamba.DRIVERS
+MODULE = [MODULE, c01_mamba.MODULE]
+THEOREMS = THEOREMS + c01_mamba.THEOREMS
+THEOREM_MODULE = dict(c01_mamba.THEOREM_MODULE)
+TRUSTED = TRUSTED + c01_mamba.TRUSTED
+RULE = RULE + '; ' + c01_mamba.RULE
+# ---- end: scheduler model
 def one_design(ck, d, n_ext, ncycles):
   """returns list of model request lines and a closure to compare"""
   rng = ck.rng
@@ -144,6 +152,55 @@ def process(ck, designs, n_ext, ncycles):
         ck.disagreement('Model/Rtl≈simulation', {'source': src, 'flow': label, 'order': list(order), 'ff': list(fo), 'inputs': cycles, 'signals': [s_.path for s_ in d.sigs]},
                         {'cycle': k, 'model': got[k]}, {'cycle': k, 'impl': tr[k], 'signals': [s.path for s in d.sigs]})
 
+def reset_stream(ck):
+  """sim_reset() under both values of the reset_active_high option of every pass group: the five pass groups must leave
+  the design in the same state, and that state must be the dataflow reference driven with reset asserted for three cycles
+  and then released (the polarity is part of what the pass group is asked to simulate)."""
+  rng = ck.rng
+  n = 30 if ck.tier == 'quick' else 400
+  made = 0
+  for _ in range(n * 4):
+    if made >= n: break
+    d = rtlgen.generate(rng, max_blocks=6, max_regs=4, min_regs=1, with_children=(rng.random() < 0.5))
+    if not any(b['kind'] == 'ff' for b in d.blocks): continue
+    src = d.source()
+    try: cls = rtlgen.load_class(ck.workdir, d)
+    except Exception: continue
+    made += 1
+    reset = next(s_ for s_ in d.sigs if s_.comp == '' and s_.name == 'reset')
+    ins = [(g, v) for (g, v) in rtlgen.gen_inputs(rng, d, 1)[0] if g != reset.idx]
+    post = rtlgen.gen_inputs(rng, d, 3)
+    for rah in (True, False):
+      act, inact = (1, 0) if rah else (0, 1)
+      ref = rtlgen.RefSim(d)
+      for _k in range(3): ref.cycle(ins + [(reset.idx, act)])
+      for g, v in ins + [(reset.idx, inact)]: ref.vals[g] = v
+      ref.eval_comb()
+      want = [list(ref.vals)]
+      for cyc in post:
+        cyc = [(g, v) for (g, v) in cyc if g != reset.idx] + [(reset.idx, inact)]
+        a, b = ref.cycle(cyc); want.append(b)
+      for flow in ['default', 'simple', 'heutopo', 'mamba', 'unroll']:
+        ck.count({'reset': hash(src) & 0xffffffff, 'flow': flow, 'rah': rah}, True); ck.hist('reset_flow', f'{flow}/{"high" if rah else "low"}')
+        try:
+          rs = rtlgen.RealSim(cls, d, flow, rah=rah)
+          rs.set_inputs(ins)
+          rs.top.sim_reset()
+          got = [rs.read_all()]
+          for cyc in post:
+            rs.set_inputs([(g, v) for (g, v) in cyc if g != reset.idx])
+            rs.top.sim_eval_combinational(); rs.top.sim_tick(); got.append(rs.read_all())
+        except Exception as e:
+          if len(ck.rejected) < 50: ck.rejected.append({'source': src, 'error': f'reset stream: {type(e).__name__}: {e}'})
+          break
+        if got != want:
+          k = next(i for i, (x, y) in enumerate(zip(got, want)) if x != y)
+          ck.violation('reset-polarity-or-sequence-differs', {'flow': flow, 'reset_active_high': rah},
+                       {'source': src, 'flow': flow, 'reset_active_high': rah, 'inputs': [ins] + post, 'signals': [s_.path for s_ in d.sigs]},
+                       {'step': k, 'impl': got[k], 'ref': want[k], 'signals': [s_.path for s_ in d.sigs],
+                        'oracle': 'after sim_reset() (reset asserted with the requested polarity for three cycles, then released) every pass group must be in the state of the dataflow reference'})
+  ck.extra_cov['reset_designs'] = made
+
 def run(ck):
   ck.rejected = []
   n = 200 if ck.tier == 'quick' else 3000
@@ -162,8 +219,11 @@ def run(ck):
     raise InfraError(f'too many generated designs rejected: {len(ck.rejected)}/{done}: {ck.rejected[0]}')
   # real library designs, model form regenerated from /repo by common/pymtl2rtl.py (after the generated stream: its PRNG draws are unchanged)
   c01_lib.run_library(ck)
+  c01_mamba.run(ck)
+  reset_stream(ck)
 
 def replay(ck, data):
+  if (data.get('case') or {}).get('pass') in ('Mamba2020', 'HeuTopoUnrollSim'): return c01_mamba.replay(ck, data)
   if (data.get('case') or {}).get('design') is not None and not (data.get('case') or {}).get('source'): return c01_lib.replay(ck, data)
   print(data.get('kind'), data.get('signature')); print(str(data.get('detail'))[:1500])
   return rtlgen.replay_source(ck, data.get('case') or {})
